@@ -128,10 +128,10 @@ def _support(job):
 
 # ---- KDE is the kernel estimate ------------------------------------------------------------------------------
 def _kde(job):
-    rule, n, weighted, sample_size, seed = job
+    rule, n, weighted, sample_size, seed, (shift, scale) = job
     from copulas.univariate import GaussianKDE
     rs = np.random.RandomState(seed)
-    X = np.concatenate([rs.normal(0, 1, n // 2), rs.normal(5, 2, n - n // 2)])
+    X = np.concatenate([rs.normal(0, 1, n // 2), rs.normal(5, 2, n - n // 2)]) * scale + shift       # the kernel estimate is affine-equivariant
     w = rs.uniform(0.2, 2.0, n) if weighted else None
     kw = {}
     if rule is not None:
@@ -172,7 +172,7 @@ def _kde(job):
     else:
         fac = float(rule)
     h = fac * math.sqrt(var)
-    grid = np.linspace(data.min() - 3, data.max() + 3, 61)
+    grid = np.linspace(data.min() - 3 * scale, data.max() + 3 * scale, 61)
     mine = np.array([np.sum(wn * np.exp(-0.5 * ((x - data) / h) ** 2)) / (h * math.sqrt(2 * math.pi)) for x in grid])
     try:
         theirs = np.asarray(m.probability_density(grid.copy()), dtype=float)
@@ -199,8 +199,8 @@ def run(ctx):
     seeds = range(4 if quick else 12)
     rjobs = [(i, n, ctx.seed * 977 + 13 * s + i) for i in range(len(mem)) for n in (200, 1000, 5000) for s in seeds]
     sjobs = [(k, ctx.seed + j) for j, k in enumerate(('beta', 'uniform', 'skew', 'normal'))]
-    kjobs = [(rule, n, wt, ss, ctx.seed + 5) for rule in (None, 'scott', 'silverman', 0.3, 1.0) for n in (12, 80) for wt in (False, True)
-             for ss in (None, 30) if not (wt and ss)]
+    kjobs = [(rule, n, wt, ss, ctx.seed + 5, aff) for rule in (None, 'scott', 'silverman', 0.3, 1.0) for n in (12, 80) for wt in (False, True)
+             for ss in (None, 30) if not (wt and ss) for aff in ((0.0, 1.0), (5.0, 2e-5), (-3.0e4, 400.0))]
     with Pool(16) as pool:
         rc = pool.map(_closed, cases, chunksize=16)
         rr = pool.map(_recover, rjobs, chunksize=2)
@@ -242,8 +242,8 @@ def run(ctx):
             ctx.violation('C04|%s|%s|%s' % (name, p, job[0]), '%s: %s on %s data: %s' % (name, p, job[0], detail), list(job))
     krecs, kmeta = [], []
     for job, (probs, rel) in zip(kjobs, rk):
-        ctx.case('kde|' + json.dumps(job[:4]))
-        tag = 'rule=%s,weights=%s,sample_size=%s' % (job[0], job[2], job[3])
+        ctx.case('kde|' + json.dumps(job[:4] + job[5:]))
+        tag = 'rule=%s,weights=%s,sample_size=%s,scale=%g' % (job[0], job[2], job[3], job[5][1])
         for p, detail in probs:
             ctx.violation('C04|GaussianKDE|%s|%s' % (p, tag), 'GaussianKDE %s: %s %s' % (tag, p, detail), list(job))
         krecs.append(A.ratio('kde|' + tag + '|n=%d' % job[1], rel, 1e-9))
